@@ -5,7 +5,7 @@
    also judged on every run, at every position of every generated script, against a third,
    independent traversal (Corr/Judge.nav_ok). *)
 From NS Require Import Base DocStore LspProofs Judge LspConcrete.
-From NS Require Import Navigation CheckNoPanic NavHover NavRes NavAnswer Lexer Parser.
+From NS Require Import Navigation CheckNoPanic NavHover NavRes NavAnswer Lexer Parser NestedParse.
 
 (* for every request history over any number of documents - any interleaving of open, change,
    hover, definition and symbol requests - every response and every published diagnostic set of
@@ -41,6 +41,15 @@ Theorem C19_navigation_exact : forall p pd perm cs txt q t,
   handle_hover (mkdoc txt p cs) q = Ok (hover_of t) /\ handle_definition (mkdoc txt p cs) q = Ok (definition_of t).
 Proof. exact navigation_exact. Qed.
 
+(* the same for every text the reference parser accepts, with no hypothesis on the tree: tokens come
+   in order (Proofs/LexSorted.v), so the ranges of every derivation are nested (Proofs/NestedParse.v) *)
+Theorem C19_navigation_of_accepted_text : forall text p pd perm cs q t,
+  parse_text text = Parsed p -> check_program p pd perm = Ok cs -> at_pos p q = [t] ->
+  handle_hover (mkdoc text p cs) q = Ok (hover_of t) /\ handle_definition (mkdoc text p cs) q = Ok (definition_of t).
+Proof.
+  intros text p pd perm cs q t H. destruct (accepted_text_nested text p H) as [N S]. exact (navigation_exact p pd perm cs text q t S N).
+Qed.
+
 (* "other positions yield nothing": no assumption on the ranges *)
 Theorem C19_navigation_nothing_elsewhere : forall p pd perm cs txt q,
   tree_safe p = true -> check_program p pd perm = Ok cs -> at_pos p q = [] ->
@@ -54,6 +63,7 @@ Proof. exact check_program_resolutions. Qed.
 
 Print Assumptions C19_docstore_refinement.
 Print Assumptions C19_navigation_exact.
+Print Assumptions C19_navigation_of_accepted_text.
 Print Assumptions C19_navigation_nothing_elsewhere.
 Print Assumptions C19_resolutions_exact.
 Print Assumptions C19_server_refines_spec.
